@@ -198,6 +198,8 @@ pub enum Op {
     /// detach the k-th device of the scenario's `devs` list (chaos histories only: the reference model
     /// has no notion of it)
     RemoveDev(usize),
+    /// attach the library's own `NullDevice` at these ports (chaos histories only)
+    AddNullDev(Vec<u16>),
 }
 
 pub const SSP_PROBE: u16 = 0xFFF0;
@@ -593,6 +595,10 @@ pub fn exec_op(w: &mut World, op: &Op) -> OpRes {
         }
         Op::Host(ev) => {
             w.host.apply(ev);
+            OpRes::Cfg
+        }
+        Op::AddNullDev(ports) => {
+            let _ = w.sim.device_handler.add_device(lc3_ensemble::sim::device::NullDevice, ports);
             OpRes::Cfg
         }
         Op::RemoveDev(k) => {
